@@ -15,12 +15,20 @@ import (
 	"time"
 )
 
+// Home is the verification tree the check was started from (set by the run wrapper).
+var Home = func() string {
+	if d := os.Getenv("VERIF_HOME"); d != "" {
+		return d
+	}
+	return "/verif"
+}()
+
 // Root is where evidence/ and replays/ are written (VERIF_OUT redirects it for experiments on scratch copies).
 var Root = func() string {
 	if d := os.Getenv("VERIF_OUT"); d != "" {
 		return d
 	}
-	return "/verif"
+	return Home
 }()
 
 // RepoDir is the risor tree the binary was built from.
@@ -83,7 +91,7 @@ func New(id, tier, level string) *Run {
 	seed, _ := strconv.Atoi(os.Getenv("VERIF_SEED"))
 	r := &Run{ID: id, Tier: tier, Level: level, Seed: seed, start: time.Now(),
 		Cov: map[string]any{}, distinct: map[string]struct{}{}, knownHits: map[string]int{}, knownFirst: map[string]string{}, exhaustive: true}
-	b, err := os.ReadFile("/verif/known_findings.json")
+	b, err := os.ReadFile(filepath.Join(Home, "known_findings.json"))
 	if err == nil {
 		var ff findingsFile
 		if err := json.Unmarshal(b, &ff); err != nil {
